@@ -57,16 +57,20 @@ def gen(rng, idx, tier, seed):
         # (a netCDF copy does not say whether the land-use file was old or
         # new style)
         spec['src'] = 'image'
-    if spec['src'] == 'direct' and fmt in ('uamiv', 'lateral_boundary') \
-            and rng.random() < 0.3:
-        # hand-built files (no end-time variable): steps on the last day of
-        # a leap year, a century year among them
-        spec['sdate'] = int(rng.choice([2000366, 2000365, 2004366, 2024366]))
-        spec['shour'] = int(rng.choice([0, 12, 20, 22]))
+    leap = spec['src'] == 'direct' and fmt in ('uamiv', 'lateral_boundary') \
+        and rng.random() < 0.5
+    if leap:
+        # hand-built files (no end-time variable, the writer derives the end
+        # of each step): steps on the last day of a leap year, a century
+        # year among them
+        spec['sdate'] = int(rng.choice([2000366, 2000366, 2000365, 2004366,
+                                        2024366]))
+        spec['shour'] = int(rng.choice([0, 12, 20, 22, 23]))
     spec['stale_attrs'] = bool(rng.random() < 0.3)
     spec['decoy_seed'] = int(rng.integers(1 << 30)) if rng.random() < 0.4 \
         else None
-    if fmt in ('uamiv', 'lateral_boundary') and rng.random() < 0.35:
+    if fmt in ('uamiv', 'lateral_boundary') and rng.random() < 0.35 and \
+            not leap:
         # end of a step at midnight written as hour 24 of the ending day
         spec['eod24'] = True
         spec['shour'] = (24 - int(rng.integers(1, spec['nt'] + 1))) % 24
